@@ -237,6 +237,14 @@ def _constructor(ctx: Ctx) -> None:
         full = all(_full_range(ev, gw, lp, n) for lp in m.loops)
         if _same_cond(m.path, want1) or _same_cond(m.path, want2):
             ok_guard = full
+        else:
+            # the same condition in another spelling (e.g. with conjuncts
+            # that an earlier rejection on the same path already implies)
+            try:
+                if equivalent(m.path, want1)[0]:
+                    ok_guard = full
+            except Unsupported:
+                pass
     ctx.ob("D5.4", new, (clears[0].node if clears else new.node),
            bool(ok_init and ok_only_false and ok_guard),
            "is_symmetric starts True, is only ever assigned False, exactly "
